@@ -182,3 +182,34 @@ contract('MatlabWrapper.wrap_namespace',
 
 contract('MatlabWrapper.add_class', params={'instantiated_class': 'ref:InstantiatedClass'}, returns='none',
          modifies=['list(self.classes)', 'dict(self.classes_elems)'])
+
+# ------------------------------------------------------------------ lemmas (statements over the contracts above)
+LEMMA_FILES = ['spec/c05_lemmas.py']
+ALL_GHOST = dict(GHOST, **dict(CASES, **DEFS))
+
+contract('lemma_every_id_served_once', params={'w': 'ref:MatlabWrapper'}, returns='none', ghost=ALL_GHOST, frame=False,
+         requires=[
+             'c05_inv(w)',
+             # postcondition of mex_function
+             'forall(0, w.wrapper_id, lambda k: caseCount[k] == 1 and caseTarget[k] == c05_target(w.wrapper_map, k))',
+             'forall(lambda k: implies(k < 0 or k >= w.wrapper_id, caseCount[k] == 0))',
+             # postcondition of generate_wrapper
+             'forall(0, w.wrapper_id, lambda k: defCount[k] == (1 if k in w.wrapper_map else 0))',
+             'forall(0, w.wrapper_id, lambda k: upCount[k] == (1 if c05_upcast_at(w.wrapper_map, k) else 0))',
+             'forall(lambda k: implies(k < 0 or k >= w.wrapper_id, defCount[k] == 0 and upCount[k] == 0))'],
+         ensures=[
+             # ids are exactly 0..n-1, one call site and one case each, none outside
+             'forall(lambda v: (siteCount[v] == 1 and caseCount[v] == 1) if 0 <= v and v < w.wrapper_id else (siteCount[v] == 0 and caseCount[v] == 0))',
+             # the case of an id runs a routine that is defined exactly once ...
+             'forall(0, w.wrapper_id, lambda v: upCount[v] == 1 if c05_upcast_at(w.wrapper_map, v) else (defCount[v] == 1 if v in w.wrapper_map else defCount[v + 1] == 1 and v + 1 < w.wrapper_id))',
+             # ... which is the one generated for the role the call site was written for
+             'forall(0, w.wrapper_id, lambda v: c05_consistent(w.wrapper_map, v, siteRole[v]))',
+             # and every defined routine is the target of exactly one case: an entry k is served by case k (normal),
+             # by case k-1 (entry after a reserved id) -- and then case k runs the up-cast routine defined with it
+             'forall(0, w.wrapper_id, lambda k: implies(k in w.wrapper_map, (k == 0 or (k - 1) in w.wrapper_map) or (siteCount[k - 1] == 1 and (k - 1) not in w.wrapper_map)))',
+         ])
+
+contract('lemma_allocator_is_monotone',
+         params={'w': 'ref:MatlabWrapper', 'cf': 'none|tuple[str,%s,str,%s]' % (CLS_OR_FN, MEMBER), 'id_diff': 'int', 'function_name': 'none|str'},
+         returns='none', frame=False,
+         requires=[], ensures=[])
